@@ -29,4 +29,9 @@ CHECKS = {
   "note": "Trusted: vlib/netmodel.py truth model (validated against gama by C05), numpy rank test for 'determined', my XML reader. Omission only for points the documented approximate-coordinate strategy resolves. Networks of 3-8 points.",
   "technique": "property-based testing (Hypothesis) of the real binary against a constructive truth model; metamorphic augmentation",
  },
+ "C09": {
+  "text": "Generated-input search over noisy determined networks x sigma-act x conf-pr x sigma-apr x algorithm: every statistic printed in the XML result (dof, a posteriori deviation, confidence scale, chi-square test, covariance matrix, ellipses, standard deviations of adjusted observations, qrr, standardised residuals) is recomputed from other fields, from scipy quantiles and from the library's Q; metamorphic sigma-apr scaling.",
+  "note": "Trusted: scipy.stats, my XML reader, Q and design rows dumped by the driver (cross-checked against the printed covariance). One known finding (correlated-cluster observation stdev) is excluded by tag and reported as KNOWN-FINDING.",
+  "technique": "property-based testing (Hypothesis) with recomputation oracle and a metamorphic relation on the real binary",
+ },
 }
